@@ -32,7 +32,29 @@ func mkIn(s, df string, ntok int) InCase {
 	return InCase{Input: []byte(s), Quoted: fmt.Sprintf("%q", q), DF: df, Ntok: ntok}
 }
 
+// histCalls counts parseWith calls. Every other call (starting with the first, so
+// that a replayed case is preceded by the same call) is preceded by an unrelated
+// Parse made with the opposite default-field choice: the properties quantify over
+// inputs, not over call histories, so what Parse returns for s must not depend on
+// what was parsed before it (a recycled parser that remembers the previous call's
+// default field, interned leaves that an earlier query rewrote ...). "zzhist" is a
+// field name no generator uses; the unrelated query has an integer field name and
+// the same integer as a value.
+var histCalls atomic.Uint64
+
+func disturbHistory(df string) {
+	defer func() { _ = recover() }()
+	if df == "" {
+		_, _ = lucene.Parse(`hq AND 7:hv OR hw:[0 TO 7] "h p"`, lucene.WithDefaultField("zzhist"))
+	} else {
+		_, _ = lucene.Parse(`hq AND 7:hv OR hw:[0 TO 7] "h p"`)
+	}
+}
+
 func parseWith(s, df string) (*expr.Expression, error) {
+	if histCalls.Add(1)%2 == 1 {
+		disturbHistory(df)
+	}
 	if df == "" {
 		return lucene.Parse(s)
 	}
